@@ -115,57 +115,69 @@ func c19Decode(c *core.Ctx, dec *ssa.Function) {
 	// error exits are fine (the whole decode fails): Returns are not `next`.
 	// (b)+(c) the derived-key store
 	n := 0
-	for _, b := range dec.Blocks {
-		for _, in := range b.Instrs {
-			mu, ok := in.(*ssa.MapUpdate)
-			if !ok || !isAuthsMap(mu.Map) || facts.Resolve(mu.Key) == keyV {
-				continue
-			}
-			n++
-			// (b) sorted after the append
-			var appendCall, sortCall ssa.Instruction
-			for _, ci := range facts.CallsIn(dec) {
-				if bi, ok := ci.Common().Value.(*ssa.Builtin); ok && bi.Name() == "append" {
-					if _, fld, isF := facts.FieldOf(facts.Resolve(ci.Common().Args[0])); isF && fld == "derivedFrom" {
-						appendCall = ci
-					}
+	// in decodeConfigFile itself or in a private helper that is handed the table
+	isAuths := func(v ssa.Value) bool {
+		return isAuthsMap(v) || isAuthsMap(resolveUp(v, dec, 3))
+	}
+	var scope []*ssa.Function
+	for _, f := range withHelpers(dec) {
+		if f.Parent() == nil {
+			scope = append(scope, f)
+		}
+	}
+	for _, df := range scope {
+		for _, b := range df.Blocks {
+			for _, in := range b.Instrs {
+				mu, ok := in.(*ssa.MapUpdate)
+				if !ok || !isAuths(mu.Map) || facts.Resolve(mu.Key) == keyV || facts.Resolve(resolveUp(mu.Key, dec, 3)) == keyV {
+					continue
 				}
-				name := facts.CalleeName(ci.Common())
-				if name == "slices.Sort" || name == "sort.Strings" {
-					if _, fld, isF := facts.FieldOf(facts.Resolve(ci.Common().Args[0])); isF && fld == "derivedFrom" {
-						sortCall = ci
-					}
-				}
-			}
-			okSort := appendCall != nil && sortCall != nil && facts.Dominates(appendCall, sortCall) && facts.Dominates(sortCall, in)
-			c.Check(okSort, "C19.R1", "decodeConfigFile/derivedFrom-sorted", in.Pos(), "the derived-from list is sorted after the append and before the store", "the list of URL keys an entry was derived from is not sorted between the append and the store: its content (and the error message listing it) depends on map iteration order")
-			// (c) never overwrite an explicit entry
-			ff := facts.FlowFuncs{
-				Edge: func(b2 *ssa.BasicBlock, idx int, t facts.Tokens) bool {
-					for _, cd := range facts.EdgeConds(b2, idx) {
-						if ex, ok := cd.V.(*ssa.Extract); ok && ex.Index == 1 {
-							if lk, ok := ex.Tuple.(*ssa.Lookup); ok && lk.CommaOk && isAuthsMap(lk.X) && !cd.Pos {
-								t["absent"] = true
-							}
+				n++
+				// (b) sorted after the append
+				var appendCall, sortCall ssa.Instruction
+				for _, ci := range facts.CallsIn(df) {
+					if bi, ok := ci.Common().Value.(*ssa.Builtin); ok && bi.Name() == "append" {
+						if _, fld, isF := facts.FieldOf(facts.Resolve(ci.Common().Args[0])); isF && fld == "derivedFrom" {
+							appendCall = ci
 						}
-						if x, op, y, ok := facts.Cmp(cd); ok {
-							if call, isCall := x.(*ssa.Call); isCall {
-								if bi, isB := call.Call.Value.(*ssa.Builtin); isB && bi.Name() == "len" {
-									if _, fld, isF := facts.FieldOf(facts.Resolve(call.Call.Args[0])); isF && fld == "derivedFrom" {
-										if k, isK := facts.ConstInt(y); isK && k == 0 && (op == token.NEQ || op == token.GTR) {
-											t["existingDerived"] = true
+					}
+					name := facts.CalleeName(ci.Common())
+					if name == "slices.Sort" || name == "sort.Strings" {
+						if _, fld, isF := facts.FieldOf(facts.Resolve(ci.Common().Args[0])); isF && fld == "derivedFrom" {
+							sortCall = ci
+						}
+					}
+				}
+				okSort := appendCall != nil && sortCall != nil && facts.Dominates(appendCall, sortCall) && facts.Dominates(sortCall, in)
+				c.Check(okSort, "C19.R1", "decodeConfigFile/derivedFrom-sorted", in.Pos(), "the derived-from list is sorted after the append and before the store", "the list of URL keys an entry was derived from is not sorted between the append and the store: its content (and the error message listing it) depends on map iteration order")
+				// (c) never overwrite an explicit entry
+				ff := facts.FlowFuncs{
+					Edge: func(b2 *ssa.BasicBlock, idx int, t facts.Tokens) bool {
+						for _, cd := range facts.EdgeConds(b2, idx) {
+							if ex, ok := cd.V.(*ssa.Extract); ok && ex.Index == 1 {
+								if lk, ok := ex.Tuple.(*ssa.Lookup); ok && lk.CommaOk && isAuths(lk.X) && !cd.Pos {
+									t["absent"] = true
+								}
+							}
+							if x, op, y, ok := facts.Cmp(cd); ok {
+								if call, isCall := x.(*ssa.Call); isCall {
+									if bi, isB := call.Call.Value.(*ssa.Builtin); isB && bi.Name() == "len" {
+										if _, fld, isF := facts.FieldOf(facts.Resolve(call.Call.Args[0])); isF && fld == "derivedFrom" {
+											if k, isK := facts.ConstInt(y); isK && k == 0 && (op == token.NEQ || op == token.GTR) {
+												t["existingDerived"] = true
+											}
 										}
 									}
 								}
 							}
 						}
-					}
-					return true
-				},
+						return true
+					},
+				}
+				flow := facts.PathFlow(df, ff)
+				ok2 := facts.AllAt(ff, flow, in, func(t facts.Tokens) bool { return t["absent"] || t["existingDerived"] })
+				c.Check(ok2, "C19.R1", "decodeConfigFile/explicit-wins", in.Pos(), "a derived entry is stored only when no entry exists or the existing one is itself derived", "an entry derived from a URL-form key can overwrite an explicit host entry (depending on which key the map iteration visits first)")
 			}
-			flow := facts.PathFlow(dec, ff)
-			ok2 := facts.AllAt(ff, flow, in, func(t facts.Tokens) bool { return t["absent"] || t["existingDerived"] })
-			c.Check(ok2, "C19.R1", "decodeConfigFile/explicit-wins", in.Pos(), "a derived entry is stored only when no entry exists or the existing one is itself derived", "an entry derived from a URL-form key can overwrite an explicit host entry (depending on which key the map iteration visits first)")
 		}
 	}
 	if n == 0 {
